@@ -1716,8 +1716,21 @@ class Interp:
                 o.set(idx, v)
             elif isinstance(o, Tup) and isinstance(idx, Const) and isinstance(idx.v, int) and -len(o.items) <= idx.v < len(o.items):
                 o.items[idx.v] = v
+            elif isinstance(o, Tup) and o.kind == 'list' and isinstance(idx, Slice) and all(isinstance(x, Const) for x in (idx.lo, idx.hi, idx.step)):
+                # lst[a:b:c] = values
+                new = self.iterate(v, node)
+                if new is None:
+                    o.items[:] = [Unknown('slice of a list assigned from a value that is not followed') for _ in o.items]
+                else:
+                    try:
+                        o.items[slice(idx.lo.v, idx.hi.v, idx.step.v)] = list(new)
+                    except ValueError:
+                        raise AbsRaise('ValueError', node)
             else:
-                self.dom.store_subscript(o, idx, v, node)
+                r_ = self.dom.store_subscript(o, idx, v, node)
+                if r_ is None and isinstance(o, Tup) and o.kind == 'list':
+                    # a store into a list under an index that is not followed: any element may have changed
+                    o.items[:] = [Unknown('list element after a store under an index that is not followed') for _ in o.items]
         elif isinstance(target, ast.Starred):
             self.assign(target.value, v, frame, node)
 
